@@ -36,6 +36,7 @@ use std::time::Duration;
 const MAGIC: u64 = 0x9e37_79b9_7f4a_7c15;
 const MAX_STEPS: usize = 96;
 
+#[derive(Default)]
 pub struct Payload {
     id: u64,
     check: u64,
@@ -332,7 +333,13 @@ fn wait_ctl<'a>(
 fn run_once(sched: &Arc<Sched>, prefix: &[usize], strict: bool) -> Exec {
     let mut g = sched.m.lock().unwrap();
     let n = g.status.len();
-    g.holder = Some(Arc::new(SingletonHolder::new()));
+    // both public constructors, alternately: `new()` and the derived `Default`
+    static NTH: std::sync::atomic::AtomicUsize = std::sync::atomic::AtomicUsize::new(0);
+    g.holder = Some(Arc::new(if NTH.fetch_add(1, std::sync::atomic::Ordering::Relaxed) % 2 == 0 {
+        SingletonHolder::new()
+    } else {
+        SingletonHolder::default()
+    }));
     g.results = (0..n).map(|_| Vec::new()).collect();
     g.status = vec![St::Running; n];
     g.log.clear();
